@@ -10,7 +10,7 @@
   ones) is preserved by "add nodes of the current level, then _end_of_divison", and old indices do not move.
 What the lattice *is* (set equality with the ideal lattice, antipodal closure) is geometric and stays bounded."""
 import z3
-from pyvc.core import Mat, Num, Bool, Vec, Str, Obj, Tup, NONE, Opaque, PathEnd, zint, conc, patterns_for
+from pyvc.core import Mat, Num, Bool, Vec, Str, Obj, Tup, NONE, Opaque, PathEnd, zint, conc, patterns_for, Unsupported
 from pyvc.ops import vget, to_num, as_real, lift
 from pyvc.verify import Contract
 from pyvc.interp import LoopSpec, LibCallable
@@ -108,7 +108,7 @@ class EndOfDivision(Contract):
         V.oblige("post:new-indices-injective", z3.Implies(z3.And(inr(v), inr(u), lev(v) == Lv, lev(u) == Lv, u != v), cur(u) != cur(v)))
         new = env.get("new_nodes")
         if new is None:
-            V.oblige("post:new-indices-onto[no witness: local new_nodes not found]", False)
+            raise Unsupported("local new_nodes not found: the contract's witness does not exist for this code")
         else:
             w = vget(ctx, new, c - C).z
             V.oblige("post:new-indices-onto[witness new_nodes[c - C]]", z3.Implies(z3.And(c >= C, c < C2), z3.And(inr(w), lev(w) == Lv, cur(w) == c)))
@@ -295,7 +295,7 @@ class HalfOfHypercube(Contract):
         S = env.get("all_ci")
         fi = env.get("fi")
         if S is None or fi is None or not isinstance(R, Mat):
-            V.oblige("post:ghost-handles[all_ci, filter] found", False)
+            raise Unsupported("ghost handles (all_ci, filter) not found: the contract does not fit this code")
             return
         Src = Pz if variant == "projection" else Qz
         K = zint(S.length)
